@@ -7,7 +7,8 @@ run():    (a) `make_relative_import` vs `relImport`, with CPython (`importlib.ut
               directory tree vs `calcRel` / `moduleDotPath`, again refereed by `resolve_name`;
           (a'') `RenderContext.add_import` (what lands in the ImportCollector) vs `classifyImport`;
           (c) `UnifiedTypeService._format_resolved_type` on random `ResolvedType` records (texts and rendered trees)
-              vs `formatText` / `formatResolved`, `eval` of the text with all names bound as referee for `evalOK`;
+              vs `formatText` / `formatResolved` (incl. the optional marker placed inside the quotes of a text that is one
+              string literal), `eval` of the text with all names bound as referee for `evalOK`;
               the real `OpenAPISchemaResolver` on small schema trees (primitive / model / self-reference / array /
               anyOf / oneOf) vs `resolveTree`;
           (d) the real `EndpointResponseHandlerGenerator.generate_response_handling` (`raise X(` lines and the names it
@@ -43,7 +44,7 @@ RULE = (
     "(core, stdlib, builtin, third party, internal, incomplete internal, foreign, pyopenapi_gen.*, relative, empty) x name "
     "(None, '', same-as-module, identifier) -> collector contents vs classifyImport; NON-TRIVIAL when the outcome is not "
     "the plain 'from <requested> import <name>'. "
-    "fmt: ResolvedType texts from a pool (bare, quoted, 'Optional[', '... | None', List/Union/dict) x flags vs formatText; "
+    "fmt: ResolvedType texts from a pool (bare, quoted, half-quoted, two literals, 'Optional[', '... | None', List/Union/dict) x flags vs formatText; "
     "random annotation trees (fragment the resolver can build) x flags: rendered text vs render, _format_resolved_type vs "
     "formatResolved, eval() vs evalOK; schema trees through the real resolver vs resolveTree; NON-TRIVIAL when a flag is "
     "set or the tree is not a bare name. "
@@ -460,7 +461,9 @@ def _part_fmt(acc: _Acc, rng, scale, driver, scratch):
     # text level
     pool = ["Node", '"Node"', "Optional[Node]", "Optional", "OptionalX[int]", "Node | None", "Node| None", "Node |None",
             "List[Node]", 'List["Node"]', "Union[int, str]", "dict[str, Any]", "", '"', "| None", "None", "int",
-            '"Node" | None', "Literal[True]", "x | None ", "é | None", "Optional[", " Optional[int]"]
+            '"Node" | None', "Literal[True]", "x | None ", "é | None", "Optional[", " Optional[int]",
+            # the optional marker of a text that is ONE string literal goes inside the quotes (F1 repaired): boundaries of that test
+            '""', '"A" | "B"', '"A", "B"', '"Node | None"', '"Node"x', 'x"Node"', '"Node', 'Node"', '"é"', '"Node" ']
     n1 = max(10, int(3000 * scale))
     cases = [(t, o, f) for t in pool for o in (False, True) for f in (False, True)]
     cases += [(rng.choice(pool) + rng.choice(["", "", " | None", "]"]), rng.random() < 0.5, rng.random() < 0.5) for _ in range(n1)]
@@ -474,7 +477,10 @@ def _part_fmt(acc: _Acc, rng, scale, driver, scratch):
     hand = [({"n": "Node"}, True, True), ({"q": "Node"}, True, False), ({"s": [{"n": "List"}, [{"q": "Node"}]]}, True, False),
             ({"s": [{"n": "Optional"}, [{"q": "Node"}]]}, False, False), ({"n": "Node"}, True, False),
             ({"b": [{"n": "Node"}, {"none": True}]}, True, False), ({"none": True}, True, False),
-            ({"s": [{"n": "Node"}, []]}, False, False)]
+            ({"s": [{"n": "Node"}, []]}, False, False),
+            # former F1 class: optional forward reference / optional already-quoted base / Union of one quoted member
+            ({"q": "Node"}, True, True), ({"n": "Pet"}, True, True), ({"s": [{"n": "Union"}, [{"q": "Node"}]]}, True, False),
+            ({"b": [{"q": "Node"}, {"q": "Pet"}]}, True, False)]
     trees = hand + [(_ann(rng), rng.random() < 0.5, rng.random() < 0.3) for _ in range(n2)]
     reqs = []
     for a, o, f in trees:
